@@ -135,6 +135,19 @@ func opClone(p []string, byValue bool, prefill bool) string {
 	if dumpValue(src.Elem()) != before {
 		oracle = "viol:source-modified"
 	}
+	// no slice (with capacity) of the copy may start where a slice of the source starts: even an EMPTY slice that shares
+	// its array lets an append through the copy write into the source's storage
+	if oracle == "ok" {
+		sp := map[uintptr]bool{}
+		collectSlicePtrs(src.Elem(), sp, map[uintptr]bool{})
+		dp := map[uintptr]bool{}
+		collectSlicePtrs(dst.Elem(), dp, map[uintptr]bool{})
+		for p := range dp {
+			if sp[p] {
+				oracle = "viol:copy-shares-a-backing-array-with-the-source"
+			}
+		}
+	}
 	// mutate everything reachable from dst; src must not change.  Then the other way round.
 	if oracle == "ok" {
 		mutateAll(dst.Elem(), map[uintptr]bool{})
@@ -156,6 +169,41 @@ func opClone(p []string, byValue bool, prefill bool) string {
 		}
 	}
 	return fmt.Sprintf("I=%s/ok O=%s", out, oracle)
+}
+
+// collectSlicePtrs records the data pointer of every slice with capacity reachable from v.
+func collectSlicePtrs(v reflect.Value, out map[uintptr]bool, seen map[uintptr]bool) {
+	switch v.Kind() {
+	case reflect.Ptr:
+		if v.IsNil() || seen[v.Pointer()] {
+			return
+		}
+		seen[v.Pointer()] = true
+		collectSlicePtrs(v.Elem(), out, seen)
+	case reflect.Interface:
+		if !v.IsNil() {
+			collectSlicePtrs(v.Elem(), out, seen)
+		}
+	case reflect.Slice:
+		if v.Cap() > 0 {
+			out[v.Pointer()] = true
+		}
+		for i := 0; i < v.Len(); i++ {
+			collectSlicePtrs(v.Index(i), out, seen)
+		}
+	case reflect.Array:
+		for i := 0; i < v.Len(); i++ {
+			collectSlicePtrs(v.Index(i), out, seen)
+		}
+	case reflect.Map:
+		for _, k := range v.MapKeys() {
+			collectSlicePtrs(v.MapIndex(k), out, seen)
+		}
+	case reflect.Struct:
+		for i := 0; i < v.NumField(); i++ {
+			collectSlicePtrs(v.Field(i), out, seen)
+		}
+	}
 }
 
 // mutateAll flips every settable scalar / byte / element reachable from v.
